@@ -78,7 +78,7 @@ def rankOf (c : String) : Option Nat :=
   else if c == "RoundRobinStrategy.mutex" || c == "LeastConnectionsStrategy.mutex"
        || c == "WeightedRoundRobinStrategy.mutex" || c == "IPHashStrategy.mutex"
        || c == "IPHashConsistentStrategy.mutex" then some 1
-  else if c == "Backend.Mutex" || c == "connPool.mu" then some 2
+  else if c == "Backend.Mutex" || c == "connPool.mu" || c == "Backend.connMu" then some 2
   else if c == "Metrics.mutex" || c == "CircuitBreaker.mutex" || c == "bucket.mutex"
        || c == "healthChecker.unhealthyBackendMu" then some 3
   else if c == "internal/logging.baseLoggerMu" then some 4
